@@ -202,6 +202,8 @@ def run(ctx: RuleContext, p: Program) -> None:
     from . import c12
     ctx.try_rule(c12.rule_str_boundary, p, c12.grammar(p), 'STR-BOUNDARY', 7 if ctx.tier == 'quick' else 9)
     ctx.try_rule(c12.rule_fmt_lang, p, c12.grammar(p), 'FMT-LANG')
+    ctx.try_rule(grammar_rules.rule_lex_prio, p, 'LEX-PRIO')
+    ctx.try_rule(grammar_rules.rule_term_domain, p, 'TERM-DOMAIN')
     ctx.not_decided += ['that the printed text of a constructed model parses (runtime / lexer)',
                         'that the parsed result has equal fields and values (runtime)']
     ctx.assumptions += ['detach()/reattach() semantics as decided under C05', 'separator tokens are deep-copied (SEP-PROV under C03/C11)']
